@@ -11,10 +11,10 @@ import (
 	"strings"
 	"time"
 
+	"github.com/prometheus/common/model"
 	"github.com/prometheus/prometheus/model/labels"
 	"github.com/prometheus/prometheus/model/relabel"
 	pscrape "github.com/prometheus/prometheus/scrape"
-	"github.com/prometheus/common/model"
 
 	"kvassverif/core"
 	"kvassverif/sidecarsim"
@@ -75,8 +75,8 @@ type entry struct {
 	window     []int64
 	errSet     bool
 	lastScrape time.Time
-	lastOK     bool           // last scrape succeeded (statistics are specified)
-	scraped    bool           // scraped at least once since (re)creation
+	lastOK     bool // last scrape succeeded (statistics are specified)
+	scraped    bool // scraped at least once since (re)creation
 	perMetric  map[string][2]int
 	kept       int
 }
@@ -89,10 +89,10 @@ type persisted struct {
 
 // Model is the reference model of the sidecar's bookkeeping (C10, C13, C14).
 type Model struct {
-	entries map[uint64]*entry
-	jobOf   map[uint64]string
-	idleAt  *time.Time
-	disk    map[uint64]persisted
+	entries  map[uint64]*entry
+	jobOf    map[uint64]string
+	idleAt   *time.Time
+	disk     map[uint64]persisted
 	diskIdle *time.Time // idle-since as persisted by the last acknowledged update
 }
 
